@@ -66,6 +66,11 @@ type FloodConfig struct {
 	// MaxSeenCacheSize limits the seen cache size
 	MaxSeenCacheSize int
 
+	// MaxHops is the maximum number of hops a route advertisement may travel
+	// from its origin (routing.max_hops). Advertisements that have travelled
+	// further are neither stored nor forwarded. Zero disables the limit.
+	MaxHops int
+
 	// LocalDisplayName is the display name to include in route advertisements
 	LocalDisplayName string
 
@@ -188,6 +193,40 @@ func (f *Flooder) HandleRouteAdvertise(
 	encPath *protocol.EncryptedData,
 	seenBy []identity.AgentID,
 ) bool {
+	// Decode path from advertisement
+	// Note: Paths are sent as plaintext for routing (not encrypted)
+	// because transit agents need the path to forward STREAM_OPEN frames.
+	// Path hiding happens at the API layer, not on the wire.
+	var path []identity.AgentID
+	if encPath != nil {
+		if encPath.Encrypted {
+			// Legacy: try to decrypt if we have the private key
+			// (for backwards compatibility with old encrypted paths)
+			if f.sealedBox != nil && f.sealedBox.CanDecrypt() {
+				decrypted, err := f.sealedBox.Open(encPath.Data)
+				if err == nil {
+					path, _ = protocol.DecodePath(decrypted)
+				}
+			}
+			// If we can't decrypt, path remains nil (routing will fail)
+		} else {
+			// Plaintext - decode directly (normal case)
+			path, _ = protocol.DecodePath(encPath.Data)
+		}
+	}
+
+	// Enforce the hop limit (routing.max_hops). The advertisement has travelled
+	// one hop per entry of its path (or of its seen-by list when the path is
+	// not available). This is checked before the advertisement is marked as
+	// seen so that a copy arriving over a shorter path is still accepted.
+	hops := len(path)
+	if len(seenBy) > hops {
+		hops = len(seenBy)
+	}
+	if f.cfg.MaxHops > 0 && hops > f.cfg.MaxHops {
+		return false
+	}
+
 	key := AdvertisementKey{
 		OriginAgent: originAgent,
 		Sequence:    sequence,
@@ -236,28 +275,6 @@ func (f *Flooder) HandleRouteAdvertise(
 	// Check if we're in the seen-by list (loop detection)
 	if containsAgent(seenBy, f.localID) {
 		return false
-	}
-
-	// Decode path from advertisement
-	// Note: Paths are sent as plaintext for routing (not encrypted)
-	// because transit agents need the path to forward STREAM_OPEN frames.
-	// Path hiding happens at the API layer, not on the wire.
-	var path []identity.AgentID
-	if encPath != nil {
-		if encPath.Encrypted {
-			// Legacy: try to decrypt if we have the private key
-			// (for backwards compatibility with old encrypted paths)
-			if f.sealedBox != nil && f.sealedBox.CanDecrypt() {
-				decrypted, err := f.sealedBox.Open(encPath.Data)
-				if err == nil {
-					path, _ = protocol.DecodePath(decrypted)
-				}
-			}
-			// If we can't decrypt, path remains nil (routing will fail)
-		} else {
-			// Plaintext - decode directly (normal case)
-			path, _ = protocol.DecodePath(encPath.Data)
-		}
 	}
 
 	// Convert protocol routes to routing entries (CIDR, domain, forward, and agent)
